@@ -362,7 +362,9 @@ def _bcur_step(op, pool, st):
         want = f"ur:bytes/{ref_chk(pool[i])}/{enc}" if uc else f"ur:bytes/{enc}"
         return _tryE(obj.encode, use_checksum=bool(uc)), want
     if k in (b"mparse", b"mreparse"):
-        # sel: [payload, y, index] per string; accepted exactly for the complete ordered set of one (payload, y)
+        # sel: [payload, y, index] per string; accepted exactly for the complete ordered set of one (payload, y).
+        # The generator only uses part counts y that encode() can produce (no empty trailing part): parse() does
+        # not compare the number of strings with y, so dropping an EMPTY hand-made last part would go unnoticed.
         _, sel, upper, pos, sub = op
         strings = [ref_parts_y(pool[i], y)[j] for (i, y, j) in sel]
         if upper:
@@ -474,10 +476,12 @@ def bcur_session(ctx):
             ops.append([b"senc", i, r.randrange(2)])
             ops.append([b"senc", i, r.randrange(2)])
         elif x < 0.75:
-            y = min(L[i], r.choice([1, 1, 2, 2, 3, 4, 5, r.randrange(1, 9)]))
+            # only part counts that encode() can produce: y = ceil(L / chunk) for some chunk size
+            ry = lambda n, want: -(-n // -(-n // max(1, min(n, want))))  # noqa: E731
+            y = ry(L[i], r.choice([1, 1, 2, 2, 3, 4, 5, r.randrange(1, 9)]))
             sel = [[i, y, j] for j in range(y)]
             v = r.random()
-            others = [k for k in range(len(pool)) if k != i and L[k] >= y]
+            others = [k for k in range(len(pool)) if k != i and ry(L[k], y) == y]
             if v < 0.45:
                 pass
             elif v < 0.55 and y > 1:
@@ -489,7 +493,7 @@ def bcur_session(ctx):
                 sel.insert(r.randrange(y + 1), list(r.choice(sel)))
             elif v < 0.9 and others:
                 sel[r.randrange(y)][0] = r.choice(others)             # a part of another (nearly equal) payload
-            elif L[i] > y:
+            elif ry(L[i], y + 1) == y + 1:
                 j = r.randrange(y)
                 sel[j] = [i, y + 1, j]                                # a part of another chunking of the same payload
             sub = r.randrange(1, 31) if r.random() < 0.15 else 0
@@ -513,7 +517,7 @@ def bcur_session(ctx):
 
 
 def histories(ctx):
-    for _ in range(ctx.n(40, 600)):
+    for _ in range(ctx.n(60, 600)):
         ctx.label("history/bcur-objects-and-codecs")
         yield ("prop", "bcur_session", bcur_session(ctx))
 
